@@ -342,10 +342,10 @@ func cmdCheck(args []string) int {
 	}
 	sort.Strings(exRel)
 	for _, rel := range exRel {
-		data, _ := os.ReadFile(filepath.Join(verifDir, "harness", rel))
-		for _, m := range regexp.MustCompile(`(?m)^func (VH_\w+)\(`).FindAllStringSubmatch(string(data), -1) {
-			if strings.HasPrefix(m[1], "VH_"+prop+"_") || harnessMappedTo(prop, m[1]) {
-				msg := fmt.Sprintf("harness %s not run: %s does not compile against this tree (%s)", m[1], rel, excludedHarness[rel])
+		// (a staged file holds one declaration: a harness, or a helper whose dependants follow)
+		if h := stagedDecl[rel]; strings.HasPrefix(h, "VH_") {
+			if strings.HasPrefix(h, "VH_"+prop+"_") || harnessMappedTo(prop, h) {
+				msg := fmt.Sprintf("harness %s not run: it does not compile against this tree (%s)", h, excludedHarness[rel])
 				fmt.Println("INCONCLUSIVE", msg)
 				ev.Inconclusive = append(ev.Inconclusive, msg)
 			}
@@ -413,6 +413,14 @@ func cmdCheck(args []string) int {
 			f := &hr.Findings[i]
 			// an assertion labelled with another property's id belongs to that property's check
 			if f.Kind == "assert" && labelProp(f.Label) != "" && labelProp(f.Label) != prop {
+				continue
+			}
+			// an obligation on HOW this version keeps a promise (labelled Cxx.impl.*): another
+			// implementation may keep the promise differently, so it can only ever be a hint
+			if f.Kind == "assert" && strings.HasPrefix(f.Label, prop+".impl.") {
+				msg := fmt.Sprintf("implementation-level observation %s/%s no longer holds (%s): a hint, not a statement of the property", f.Harness, f.Label, f.Msg)
+				fmt.Println("INCONCLUSIVE", msg)
+				ev.Inconclusive = append(ev.Inconclusive, msg)
 				continue
 			}
 			path, rr := replayFinding(prop, f)
